@@ -25,7 +25,7 @@ RULE = (
     "in another thread, or in a forked child process logging to its own file), then a generated permutation that merges "
     "all sides' logs; oracle: ids pairwise distinct and equal to no emitted level, the merged log parses to the model "
     "forest (remote sub-tree is the child at exactly the reserved position, same task_uuid), C02 invariants (non-causal) "
-    "hold. Facet preserve-race: 2-3 threads invoke one preserve_context callable under line-level schedules of "
+    "hold. Facet preserve-race: 2-3 threads invoke one preserve_context callable under schedules at source-line and bytecode-instruction granularity of "
     "eliot/_action.py (generated plans + complete single-preemption enumeration); oracle: the function runs exactly once, "
     "exactly one call returns its result (or raises its exception object), every other call raises TooManyCalls, one "
     "remote sub-tree is logged with no duplicate level. Facet preserve-seq: wrap with/without a current action, extra keyword arguments of arbitrary names, 0-4 "
@@ -161,7 +161,7 @@ def check_race(case):
 
                 return run
 
-            s = sched.Scheduler(("eliot/_action.py",), case["plan"])
+            s = sched.Scheduler(("eliot/_action.py",), case["plan"], opcodes=bool(case.get("opcodes")))
             s.run([worker(i) for i in range(nthreads)])
             for wid, e in s.errors.items():
                 if isinstance(e, HarnessError):
@@ -191,12 +191,14 @@ def classify_race(case, info):
         labels.append("f-raises")
     if info["switch_inside"]:
         labels.append("preempted-inside-restore")
+    labels.append("granularity:bytecode" if case.get("opcodes") else "granularity:line")
     return info["switch_inside"] >= 1, labels
 
 
 def race_strategy():
     return st.builds(
-        lambda n, raises, plan: {"threads": n, "raises": raises, "plan": plan},
+        lambda opc, n, raises, plan: sched.with_granularity({"threads": n, "raises": raises, "plan": plan}, opc),
+        st.sampled_from([False, False, True]),
         st.integers(2, 3),
         st.booleans(),
         sched.plans(max_segments=8, max_steps=12, workers=3),
@@ -213,6 +215,10 @@ def race_enum_runner(mod, facet, tier, seed, shard, nshards, stats):
     for k in range(0, 12):
         for j in range(0, 12):
             cases.append({"threads": 3, "raises": False, "plan": [[k, 0], [j, 1], [10**6, 2]]})
+    # bytecode granularity: the first caller preempted before every instruction of the call
+    for raises in (False, True):
+        for k in range(0, 260 if tier == "thorough" else 160):
+            cases.append({"opcodes": True, "threads": 2, "raises": raises, "plan": [[k, 0], [10**6, 1]]})
     stats.extra["enumerated_plans"] = len(cases)
     enumerate_cases(mod, facet, cases, shard, nshards, stats, exhaustive=True)
 
